@@ -17,6 +17,9 @@ from ..l3.specgen import Emitted, Spec, Disagreement, field_ident_ok, rust_lit
 BCAST = 'broadcast use {crate::ax::rc_clone_eq, crate::ax::string_peq};'
 
 
+RESOLVE_OB = 'shape:emitted-file#member-types-resolve'
+
+
 class Program(Unit):
     """one (schema set, emitted file, concern) triple; concern in {'C07','C02','C05'}"""
 
@@ -135,7 +138,8 @@ class Program(Unit):
         return res
 
     def front_end_obligations(self, out):
-        return [c.label for c in out.chunks if c.label and (c.label.startswith('shape:') or c.label.startswith('sig:'))]
+        return [c.label for c in out.chunks if c.label and (c.label.startswith('shape:') or c.label.startswith('sig:'))] + \
+               ([RESOLVE_OB] if self.concern in ('C02', 'C08', 'C09') else [])
 
     def front_end_failures(self, out, vr, text):
         """compile errors whose primary span lies in a shape / signature chunk"""
@@ -152,6 +156,23 @@ class Program(Unit):
                 if info.get('kind') == 'contract' and info.get('label') and (info['label'].startswith('shape:') or info['label'].startswith('sig:')):
                     hit = info['label']
                     break
+            if not hit and self.concern in ('C02', 'C08', 'C09') and re.match(r'cannot find (type|struct)|failed to resolve|unresolved', d.message):
+                # the EMITTED item itself names a type that does not exist where it is used: the member is not typed by the
+                # struct generated for its declared type
+                for sp_ in d.spans:
+                    if os.path.basename(sp_.get('file_name', '')) != fname:
+                        continue
+                    info = out.describe(sp_['line_start'])
+                    if info.get('kind') == 'code' and str(info.get('file', '')).startswith('emitted:'):
+                        f = Failure(self.name, RESOLVE_OB, 'a type named by the emitted code does not exist in the scope it is used in: ' + d.message,
+                                    [{'file': info['file'], 'line': info.get('line', 0), 'text': lines[sp_['line_start'] - 1].strip() if 0 < sp_['line_start'] <= len(lines) else '', 'what': 'emitted line'}], d.rendered)
+                        f.props = [self.concern]
+                        fails.append(f)
+                        hit = None
+                        break
+                else:
+                    other += 1
+                continue
             if hit:
                 f = Failure(self.name, hit, 'emitted code does not have the declared shape: ' + d.message,
                             [{'file': 'schema:' + os.path.basename(self.schema), 'line': 0, 'text': hit.split('#')[0], 'what': 'shape contract'}],
